@@ -408,6 +408,22 @@ func synthesize(prog *Program) (map[string]string, map[string]*SpecFn, error) {
 		keys = append(keys, k)
 	}
 	sort.Strings(keys)
+	staleNow := map[string]bool{}
+	dropAsserts := map[*Clause]bool{}
+	defer func() {
+		for k := range staleNow {
+			delete(prog.CS.Funcs, k)
+		}
+		for _, con := range prog.CS.Funcs {
+			var keep []*Clause
+			for _, a := range con.Asserts {
+				if !dropAsserts[a] {
+					keep = append(keep, a)
+				}
+			}
+			con.Asserts = keep
+		}
+	}()
 	for _, key := range keys {
 		con := prog.CS.Funcs[key]
 		fi := prog.Funcs[key]
@@ -458,7 +474,9 @@ func synthesize(prog *Program) (map[string]string, map[string]*SpecFn, error) {
 		loops := collectLoops(fi.Decl)
 		for n, ls := range con.Loops {
 			if n < 1 || n > len(loops) {
-				return nil, nil, fmt.Errorf("%s:%d: contract for %s names loop %d but the function has %d loops (contract key no longer matches; engine error)", con.File, con.Line, key, n, len(loops))
+				prog.CS.Stale = append(prog.CS.Stale, fmt.Sprintf("%s (%s:%d): contract names loop %d but the function has %d loops", key, con.File, con.Line, n, len(loops)))
+				staleNow[key] = true
+				continue
 			}
 			lp := loops[n-1]
 			lparams, lroles := localsParams(pkg, fi, lp, sigParams, roles)
@@ -484,7 +502,10 @@ func synthesize(prog *Program) (map[string]string, map[string]*SpecFn, error) {
 			}
 			sites := findCallSites(prog, fi, c.At)
 			if len(sites) == 0 {
-				return nil, nil, fmt.Errorf("%s:%d: at-clause names call %q which does not exist in %s (contract key no longer matches; engine error)", c.File, c.Line, c.At, key)
+				// the call the assertion is attached to no longer exists: the contract is stale
+				prog.CS.Stale = append(prog.CS.Stale, fmt.Sprintf("%s (%s:%d): at-clause names call %q which no longer exists (clause dropped)", key, c.File, c.Line, c.At))
+				dropAsserts[c] = true
+				continue
 			}
 			// with a wildcard the locals visible at the LAST matching call are offered (a clause may only use
 			// names that are in scope at every matching call; go/types reports otherwise)
